@@ -24,6 +24,8 @@ FRAGMENTS = [
     ("UpdateSM", "gen_updatesm"),
     ("StepParams", "gen_params"),
     ("EFIndex", "gen_ef"),
+    ("Factory", "gen_factory"),
+    ("ImpTables", "gen_impedance"),
 ]
 
 
